@@ -50,6 +50,16 @@ def run_program(prog: dict) -> list[dict]:
                 ent[1] = tables.project(A)            # the one legitimate in-place change
             elif tables.project(ent[0]) != ent[1]:
                 altered += 1
+        # a result is its own object: moving IT in place (and back) moves no object the session already holds, and moving the
+        # receiver moves no result (buffers shared between a table and the tables derived from it would show here)
+        if res is not None and not err and op["name"] != "peek" and len(res) > 0 and not any(ent[0] is res for ent in tracked):
+            for mover, others in ((res, [e for e in tracked]), (A, [[res, tables.project(res)]])):
+                if mover is res or not any(fz is mover for fz in frozen):
+                    snap = [tables.project(e[0]) for e in others if e[0] is not mover]
+                    mover.translate([1.0, 0.0, 0.0], copy=False)
+                    now = [tables.project(e[0]) for e in others if e[0] is not mover]
+                    mover.translate([-1.0, 0.0, 0.0], copy=False)
+                    altered += sum(1 for a, b in zip(snap, now) if a != b)
         out["earlier_altered"] = altered
         if res is not None and op["name"] not in ("append", "append_extra", "peek") and (res is A or res is B):
             # an operation with copy semantics handed back one of its operands: the caller still holds that operand under its
